@@ -233,3 +233,15 @@ pub fn hash2(data: &[u8], wbuf: &[u8]) -> U256 {
 pub fn kdf(z: &[u8], klen: usize) -> Vec<u8> {
     crate::key::verif_kdf(z, klen)
 }
+
+/// Message of the panic raised when a loop that draws no fresh randomness exceeds its iteration budget
+/// (the harness's way of observing "never terminates" without waiting for a wall-clock timeout).
+pub const LOOP_BUDGET_MSG: &str = "gm_rs_verif: loop iteration budget exhausted";
+
+/// Called at the top of every iteration of such a loop with a counter local to the call.
+pub fn loop_tick(iterations: &mut u32, what: &str) {
+    *iterations += 1;
+    if *iterations > 64 {
+        panic!("{} in {}", LOOP_BUDGET_MSG, what);
+    }
+}
